@@ -417,7 +417,7 @@ def checkpoint_body(c):
 
 
 PROP = Prop("C17", [
-    Test("primitives", prim_body, quick=2500, thorough=30000, shard_size=300),
-    Test("none_space", none_space_body, quick=500, thorough=5000, shard_size=100),
-    Test("checkpoint", checkpoint_body, quick=300, thorough=3000, shard_size=50),
+    Test("primitives", prim_body, quick=8000, thorough=30000, shard_size=300),
+    Test("none_space", none_space_body, quick=1500, thorough=5000, shard_size=100),
+    Test("checkpoint", checkpoint_body, quick=800, thorough=3000, shard_size=50),
 ], RULE, assumptions=["closed-form partials of the polynomial family; registration through the public autograd.extend API only"])
